@@ -43,7 +43,7 @@ OUTSIDE = ["convergence / optimality of the iteration (which eigenvectors are th
 STUBS = ["np.linalg.eigh (utility.py): records its argument; returns fresh eigenvalues e_0<=e_1<=.. and an arbitrary unitary diag(phases).G01.G02..G(n-2,n-1) "
          "(complex Givens rotations, unit-circle atoms; completeness of the parametrisation is validated numerically on random unitaries in every run)",
          "np.linalg.svd (utility.py): (A, 1, 1) when A+A normalises exactly to 1 (the polar factor of an isometry is the isometry), (arbitrary unitary, s, 1) "
-         "when A is square, Inconclusive otherwise",
+         "when A is square; any other matrix (never met on the unchanged code) gives an arbitrary isometry supported on the non-zero rows of A",
          "np.linalg.inv (kpoint_and_neighbours.py): an arbitrary complex matrix (only its polar factor is used, which the svd contract replaces by an arbitrary unitary)",
          "np.angle / abs in update_Mmn_opt (centres and spreads bookkeeping): fresh real / non-negative atoms",
          "Wannierizer (wannierise.py): records the masks passed to add_kpoint and stops the run (the k-point objects are covered by the other cases)"]
@@ -137,6 +137,13 @@ class Lin(LinalgProxy):
             k = next(_cnt)
             sv = symvec(f"sv{k}", (m,))
             return unitary(f"W{k}", n), sv, one
+        # not reachable on the unchanged code: over-approximation "an arbitrary isometry supported on the non-zero rows of A" (the polar factor is one)
+        rows = [i for i in range(n) if not all(SymC.of(x).iszero() for x in a[i])]
+        if m <= len(rows) <= 4:
+            k = next(_cnt)
+            out = lift(np.zeros((n, m)))
+            out[rows, :] = unitary(f"W{k}", len(rows))[:, :m]
+            return out, symvec(f"sv{k}", (m,)), one
         raise Inconclusive(f"svd contract: {n}x{m} matrix that is not an exact isometry")
 
     def inv(s, a):
@@ -201,27 +208,27 @@ def neighbour_masks(pat, nnb):
     return np.array([[c == "Z" for c in p] for p in pats]), np.array([[c == "F" for c in p] for p in pats])
 
 
-def check_gauge(rec, U, frozen, free, nw, who):
+def check_gauge(rec, U, frozen, free, nw, who, stage):
     U = np.asarray(U, dtype=object).view(SymArray)
     nband = len(frozen)
-    rec.concrete(f"{who}: shape", U.shape == (nband, nw), f"{U.shape}", key=f"{who}: U has the wrong shape")
+    rec.concrete(f"{who}: shape", U.shape == (nband, nw), f"{U.shape}", key=f"{stage}: U has the wrong shape")
     if U.shape != (nband, nw):
         return
     desel = ~(frozen | free)
     if desel.any():
-        rec.eq(f"{who}: rows of deselected bands are 0", U[desel, :], lift(np.zeros((int(desel.sum()), nw))), key=f"{who}: weight on a band outside the outer window")
-    rec.eq(f"{who}: U+U = 1", np.conjugate(U.T) @ U, lift(np.eye(nw)), key=f"{who}: columns of U not orthonormal")
+        rec.eq(f"{who}: rows of deselected bands are 0", U[desel, :], lift(np.zeros((int(desel.sum()), nw))), key=f"{stage}: weight on a band outside the outer window")
+    rec.eq(f"{who}: U+U = 1", np.conjugate(U.T) @ U, lift(np.eye(nw)), key=f"{stage}: columns of U not orthonormal")
     if frozen.any():
         P = U @ np.conjugate(U.T)
         rec.eq(f"{who}: (UU+)_ff = 1 for frozen f", sarr([P[f, f] for f in np.where(frozen)[0]]), lift(np.ones(int(frozen.sum()))),
-               key=f"{who}: frozen state not in the span of U")
+               key=f"{stage}: frozen state not in the span of U")
 
 
-def check_lapack_args(rec, who):
+def check_lapack_args(rec, who, stage):
     for kind, a in Lin.log:
         if kind == "eigh":
             a = np.asarray(a, dtype=object).view(SymArray)
-            rec.eq(f"{who}: argument of eigh is Hermitian", a, np.conjugate(a.T), key=f"{who}: eigh called with a non-Hermitian matrix")
+            rec.eq(f"{who}: argument of eigh is Hermitian", a, np.conjugate(a.T), key=f"{stage}: eigh called with a non-Hermitian matrix")
     Lin.log.clear()
 
 
@@ -248,18 +255,18 @@ def case_step(rec, nband, nw, pats, nnb, second, strict=False):
                                                Unb=env.arr(Unb), Unb2=env.arr(Unb2), ph=env.arr(ph), wb=[env.val(w) for w in wb], mix=env.val(mix), bk=bk.tolist())
                 kp = KN.Kpoint_and_neighbours(Mmn.copy(), frozen.copy(), frozen_nb.copy(), free.copy(), free_nb.copy(), wb.copy(), bk.copy(), 0,
                                               VoidSymmetrizer(), VoidSymmetrizer(), amn.copy())
-                check_lapack_args(rec, f"{pat} nW={nw} init")
-                check_gauge(rec, kp.get_U_opt_full(), frozen, free, nw, f"{pat} nW={nw} init")
+                check_lapack_args(rec, f"{pat} nW={nw} init", "projection step")
+                check_gauge(rec, kp.get_U_opt_full(), frozen, free, nw, f"{pat} nW={nw} init", "projection step")
                 U, wcc, r2 = kp.update([Unb[b] for b in range(nnb)], ph.copy(), localise=localise, mix_ratio=mix)
                 who = f"{pat} nW={nw} update(localise={localise})"
-                check_lapack_args(rec, who)
-                check_gauge(rec, U, frozen, free, nw, who)
+                check_lapack_args(rec, who, f"update(localise={localise})")
+                check_gauge(rec, U, frozen, free, nw, who, f"update(localise={localise})")
                 rec.eq(f"{who}: get_U_opt_full() is the returned U", kp.get_U_opt_full(), U, key="update: stored U differs from the returned U")
                 if second:
                     U, wcc, r2 = kp.update([Unb2[b] for b in range(nnb)], ph.copy(), localise=localise, mix_ratio=mix)
                     who = f"{pat} nW={nw} second update(localise={localise}, Z mixing)"
-                    check_lapack_args(rec, who)
-                    check_gauge(rec, U, frozen, free, nw, who)
+                    check_lapack_args(rec, who, f"second update(localise={localise})")
+                    check_gauge(rec, U, frozen, free, nw, who, f"second update(localise={localise})")
             rec.explore(body, ass, max_seconds=600)
 
 
@@ -404,16 +411,26 @@ def _fill(a, rng):
 
 def replay(rec):
     """real Kpoint_and_neighbours / wannierise with real LAPACK on the model's doubles"""
-    from symx.harness import unarr
     w = rec["witness"]
-    rng = np.random.default_rng(1)
     if w["test"] == "windows":
         return _replay_windows(w)
+    bad, note = _replay_step(w, 0.0)
+    if bad is None:      # the model's (mostly zero) overlaps make the localisation matrix singular: same input, generically perturbed
+        bad, note = _replay_step(w, 1e-2)
+        note += " [witness perturbed by 1e-2: the model's overlaps give a singular localisation matrix]"
+    return bool(bad), f"pattern {w['pat']} (Z frozen, F free, D deselected) num_wann={w['nw']} localise={w['localise']}: " + ("; ".join(bad or []) or "all gauge conditions hold to 1e-9") + note
+
+
+def _replay_step(w, eps):
+    from symx.harness import unarr
+    rng = np.random.default_rng(1)
     pat, nw, nnb = w["pat"], w["nw"], w["nnb"]
     frozen = np.array([c == "Z" for c in pat])
     free = np.array([c == "F" for c in pat])
     frozen_nb, free_nb = neighbour_masks(pat, nnb)
     Mmn, amn, Unb, Unb2, ph = [_fill(unarr(w[k]), rng) for k in ("Mmn", "amn", "Unb", "Unb2", "ph")]
+    if eps:
+        Mmn, amn, Unb, Unb2 = [a + eps * (rng.normal(size=a.shape) + 1j * rng.normal(size=a.shape)) for a in (Mmn, amn, Unb, Unb2)]
     wb = np.array([x if x > 0 else 1.0 for x in w["wb"]])
     mix = w["mix"] if 0 < w["mix"] <= 1 else 0.5
     nonherm = []
@@ -425,6 +442,7 @@ def replay(rec):
             nonherm.append(float(np.abs(a - a.conj().T).max() / (1e-300 + np.abs(a).max())))
         return real_eigh(a, *args, **kw)
     bad = []
+    singular = False
 
     def gauge(U, who):
         U = np.asarray(U)
@@ -452,15 +470,19 @@ def replay(rec):
         if w["second"]:
             U, _, _ = kp.update([Unb2[b] for b in range(nnb)], ph.copy(), localise=w["localise"], mix_ratio=mix)
             gauge(U, "second update")
-    except np.linalg.LinAlgError as e:
-        return False, f"LinAlgError {e} (outside the assumptions)"
+    except np.linalg.LinAlgError:
+        singular = True
     except Exception as e:
         bad.append(f"raises {type(e).__name__}: {str(e)[:120]}")
     finally:
         np.linalg.eigh = real_eigh
     if nonherm and max(nonherm) > 1e-9:
         bad.append(f"eigh called with a non-Hermitian matrix (relative asymmetry {max(nonherm):.2e})")
-    return bool(bad), f"pattern {pat} (Z frozen, F free, D deselected) num_wann={nw} localise={w['localise']}: " + ("; ".join(bad) or "all gauge conditions hold to 1e-9")
+    if singular and not bad:
+        if not eps:
+            return None, ""
+        bad.append("np.linalg.inv raises LinAlgError (singular localisation matrix) even for generically perturbed overlaps: no gauge is produced")
+    return bad, ""
 
 
 def _replay_windows(w):
